@@ -257,6 +257,46 @@ static int replay_C11(const Args&)
    return fails;
 }
 
+// ---- C01 / C04: unification of type, name and atom constructors (two requests with the same arguments, others in between)
+static int replay_C01(const Args& a)
+{
+   impl::Lexicon lex;
+   const Type& i = lex.int_type(); const Type& c = lex.char_type();
+   auto* e1 = lex.make_literal(i, u8"1"); auto* e2 = lex.make_literal(i, u8"2");
+   impl::Warehouse<Type> w1; w1.push_back(i); w1.push_back(c);
+   impl::Warehouse<Type> w2; w2.push_back(i); w2.push_back(c);
+   impl::Warehouse<Type> w3; w3.push_back(c); w3.push_back(i);
+   auto& p1 = lex.get_product(w1); auto& s1 = lex.get_sum(w1);
+   for (int k = 0; k < 200; ++k) (void)lex.get_pointer(lex.get_pointer(lex.get_array(i, *lex.make_literal(i, std::u8string(1, char8_t(u8'a' + k % 26)) + std::u8string(1, char8_t(u8'a' + k / 26))))));   // things built in between
+   bool sel = a.count("only") == 0;
+   auto want = [&](const char* n) { return sel || a.at("only") == n; };
+   if (want("pointer")) CLAUSE(&lex.get_pointer(i) == &lex.get_pointer(i) && &lex.get_pointer(i) != &lex.get_pointer(c), "pointer types are unified");
+   if (want("reference")) CLAUSE(&lex.get_reference(i) == &lex.get_reference(i) && &lex.get_rvalue_reference(i) == &lex.get_rvalue_reference(i) && &lex.get_reference(i) != &lex.get_reference(c), "reference types are unified");
+   if (want("array")) CLAUSE(&lex.get_array(i, *e1) == &lex.get_array(i, *e1) && &lex.get_array(i, *e1) != &lex.get_array(i, *e2) && &lex.get_array(i, *e1) != &lex.get_array(c, *e1), "array types are unified");
+   if (want("as_type")) CLAUSE(&lex.get_as_type(*e1) == &lex.get_as_type(*e1) && &lex.get_as_type(*e1) != &lex.get_as_type(*e2), "expression-as-type is unified");
+   if (want("as_type_xfer")) { auto& x = lex.get_transfer(lex.c_linkage(), lex.get_calling_convention(u8"cdecl"));
+      CLAUSE(&lex.get_as_type(*e1, x) == &lex.get_as_type(*e1, x) && &lex.get_as_type(*e1, impl::cxx_transfer()) == &lex.get_as_type(*e1), "expression-as-type with transfer is unified; natural transfer collapses"); }
+   if (want("product")) CLAUSE(&p1 == &lex.get_product(w2) && &p1 != &lex.get_product(w3) && &s1 == &lex.get_sum(w2) && &s1 != &lex.get_sum(w3), "products and sums are unified element-wise");
+   if (want("function")) CLAUSE(&lex.get_function(p1, i) == &lex.get_function(p1, i) && &lex.get_function(p1, i) == &lex.get_function(p1, i, impl::cxx_transfer()) && &lex.get_function(p1, i) != &lex.get_function(p1, c), "function types are unified; default specification / natural transfer are the same request");
+   if (want("tor")) CLAUSE(&lex.get_tor(p1, s1) == &lex.get_tor(p1, s1), "tor types are unified");
+   if (want("forall")) CLAUSE(&lex.get_forall(p1, i) == &lex.get_forall(p1, i) && &lex.get_forall(p1, i) != &lex.get_forall(p1, c), "forall types are unified");
+   if (want("ptr_to_member")) CLAUSE(&lex.get_ptr_to_member(i, c) == &lex.get_ptr_to_member(i, c) && &lex.get_ptr_to_member(i, c) != &lex.get_ptr_to_member(c, i), "pointer-to-member types are unified");
+   if (want("qualified")) CLAUSE(&lex.get_qualified(lex.const_qualifier(), i) == &lex.get_qualified(lex.const_qualifier(), i), "qualified types are unified");
+   if (want("transfer")) CLAUSE(&lex.get_transfer(lex.c_linkage(), lex.get_calling_convention(u8"cdecl")) == &lex.get_transfer(lex.get_linkage(u8"C"), lex.get_calling_convention(u8"cdecl")), "transfers are unified by spelling");
+   // names and atoms (C04)
+   auto& id = lex.get_identifier(u8"foo");
+   if (want("identifier")) CLAUSE(&id == &lex.get_identifier(u8"foo") && &id != &lex.get_identifier(u8"bar"), "identifiers are unified");
+   if (want("operator")) CLAUSE(&lex.get_operator(u8"+") == &lex.get_operator(u8"+") && &lex.get_operator(u8"+") != &lex.get_operator(u8"-"), "operator names are unified");
+   if (want("suffix")) CLAUSE(&lex.get_suffix(id) == &lex.get_suffix(id), "literal-suffix names are unified");
+   if (want("conversion")) CLAUSE(&lex.get_conversion(i) == &lex.get_conversion(i) && &lex.get_conversion(i) != &lex.get_conversion(c), "conversion names are unified");
+   if (want("ctor_name")) CLAUSE(&lex.get_ctor_name(i) == &lex.get_ctor_name(i) && &lex.get_dtor_name(i) == &lex.get_dtor_name(i), "constructor / destructor names are unified");
+   if (want("literal")) CLAUSE(&lex.get_literal(i, u8"7") == &lex.get_literal(i, u8"7") && &lex.get_literal(i, u8"7") != &lex.get_literal(c, u8"7"), "literals are unified");
+   if (want("symbol")) CLAUSE(&lex.get_symbol(id, i) == &lex.get_symbol(id, i) && &lex.get_label(id) == &lex.get_label(id) && &lex.get_this(i) == &lex.get_this(i), "symbols, labels and this are unified");
+   if (want("linkage")) CLAUSE(&lex.get_linkage(u8"Java") == &lex.get_linkage(u8"Java") && &lex.get_calling_convention(u8"cdecl") == &lex.get_calling_convention(u8"cdecl"), "linkages and calling conventions are unified");
+   if (want("logogram")) CLAUSE(&lex.get_logogram(lex.get_string(u8"xyz")) == &lex.get_logogram(lex.get_string(u8"xyz")), "logograms are unified");
+   return fails;
+}
+
 int main(int argc, char** argv)
 {
    if (argc < 2) return 3;
@@ -270,6 +310,7 @@ int main(int argc, char** argv)
       else if (f == "C03") n = replay_C03(a);
       else if (f == "C15") n = replay_C15(a);
       else if (f == "C11") n = replay_C11(a);
+      else if (f == "C01" || f == "C04") n = replay_C01(a);
       else { std::cerr << "unknown replay family " << f << "\n"; return 3; }
    } catch (const std::exception& e) { std::cout << "REPLAY-EXCEPTION: " << e.what() << "\n"; return 4; }
    return n > 0 ? 1 : 0;
